@@ -115,7 +115,7 @@ def run(rep, tier, root=None):
     F = lambda n: ix.func(MOD, n)
     rep.files_analysed.add(ix.module(MOD).relpath)
     rep.trusted_base += ["scipy.ndimage.map_coordinates(table, [row, col], order=1) interpolates the table bilinearly at fractional indices",
-                         "rebin(a, shape) replicates a (n,1)/(1,n) array to the given shape; numpy.linalg.eigh returns orthonormal eigenvectors",
+                         "numpy.linalg.eigh returns orthonormal eigenvectors (rebin is decided by A14)",
                          "oracle definitions in sa/props/c13.py (Cannon 1996)"]
     rep.assumptions += ["everything about the values eigh / map_coordinates produce is outside this check (see module docstring)"]
     rep.explanation = ("The geometric and bookkeeping functions of karhunenLoeve.py are reduced to normal forms and compared with "
@@ -253,6 +253,7 @@ def run(rep, tier, root=None):
 
     # ------------------------------------------------------------------ A13 kernel = azimuthal DFT of the structure function
     kernel_rule(rep, ix)
+    rebin_rule(rep, ix)
 
     purity_obligations(rep, ix, [F(n) for n in ("make_kl", "gkl_basis", "gkl_fcom", "gkl_kernel", "gkl_sfi", "pol2car", "pcgeom")],
                        "A12.pure", "the basis returned for (nmax, dim, ri, nr) would depend on earlier calls")
@@ -524,6 +525,56 @@ def piston(rep, ix):
     al = [a for a in I.alloc_log if a[0] == f.fq]
     rep.check(len(al) == 1 and same_value(al[0][2][0] if al[0][2] else None, (nr, nr)), "A8.piston", f.fq + ": zeros((nr, nr))",
               "allocation %s" % ([nf(x) for x in al[0][2]] if al else None), f.where())
+
+
+# ----------------------------------------------------------------------------------------------------- A14
+def rebin_rule(rep, ix):
+    """rebin(a, newshape)[i, j, ...] = a[floor(i * old0 / new0), floor(j * old1 / new1), ...] with exactly new_k indices per
+    axis (every clause above takes this for granted: radii, polang, gkl_sfi replicate columns / rows with it).  The index
+    vectors must be computed in integer arithmetic: a slice / arange / mgrid with the float step old/new has
+    ceil(old / (old/new)) elements, which is new + 1 for some sizes (old = 1: new = 49, 98, 103, 107, ..., 425, ...)."""
+    f = ix.func(MOD, "rebin")
+    rep.functions_analysed.add(f.fq)
+    a = S("a", "array")
+    n0, n1 = S("n0", "int"), S("n1", "int")
+    I = Interp(ix, square=False)
+    I.param_flags = {}
+    # float-step index grids
+    floaty = []
+    for n in ast.walk(f.node):
+        step = None
+        if isinstance(n, ast.Call) and norm_text(n.func).split(".")[-1] == "slice" and len(n.args) == 3:
+            step = n.args[2]
+        elif isinstance(n, ast.Call) and norm_text(n.func).split(".")[-1] == "arange" and len(n.args) == 3:
+            step = n.args[2]
+        elif isinstance(n, ast.Slice) and n.step is not None:
+            step = n.step
+        if step is not None and any(isinstance(x, ast.Div) for x in ast.walk(step)):
+            floaty.append((n, step))
+    for n, step in floaty:
+        rep.violation("A14.rebin", "%s: index grid with step %s" % (f.fq, norm_text(step)),
+                      "the indices of an axis are generated with the non-integer step %s: the number of generated indices is "
+                      "ceil(extent / step) in floating point, which is one more than the requested size for some sizes (1 -> 49, 98, 425, ...), so "
+                      "the replicated table has an extra column (radii(85, 425, ri) is 85 x 426)" % norm_text(step), f.where(n))
+    if floaty:
+        return
+    rets = I.returns(f, [a, (n0, n1)])
+    ok = False
+    got = None
+    if len(rets) == 1 and isinstance(rets[0][1], Rat):
+        got = rets[0][1]
+        ga = got.single_atom()
+        if isinstance(ga, Fn) and ga.name == "getitem" and same_value(ga.args[0], a):
+            idx = ga.args[1]
+            ia = idx.single_atom() if isinstance(idx, Rat) else None
+            comps = list(ia.args) if isinstance(ia, Fn) and ia.name == "ix_" else None
+            if comps is not None and len(comps) == 2:
+                want = [Rat.atom(Fn("floordiv", (Rat.atom(Fn("arange", (Rat.const(0), n_, Rat.const(1)))) * Rat.sym("shape(a)[%d]" % k_, ("int", "size")), n_)))
+                        for k_, n_ in enumerate((n0, n1))]
+                from ..elem import canonical_extents
+                ok = all(same_value(canonical_extents(c_, {"a": 2}), canonical_extents(w_, {"a": 2})) for c_, w_ in zip(comps, want))
+    rep.check(ok, "A14.rebin", f.fq + ": item (i, j) is a[i*old0 // new0, j*old1 // new1], new_k indices per axis, integer arithmetic",
+              "rebin returns %s" % (nf(got, 200) if got is not None else "several paths"), f.where())
 
 
 # ----------------------------------------------------------------------------------------------------- A13
